@@ -21,9 +21,10 @@ CONTRACT_INV = "NeverAboveEveryCap"
 CONTRACT_PROPS = "NoAcceptAboveCap RefinesContract"
 
 
-def mc_cfg(ordered, resizes, dial, err, contract=True, sequential=False, caps="{1,2,3}", size=7):
+def mc_cfg(ordered, resizes, dial, err, contract=True, sequential=False, caps="{1,2,3}", size=7, dbl=0, restart=0):
     s = ("SPECIFICATION GSpec\nCONSTANTS\n  Size = %d\n  Caps = %s\n  InitCaps = %s\n  MaxResize = %d\n  MaxDial = %d\n"
-         "  MaxErr = %d\n  Ordered = %s\nVIEW view\n" % (size, caps, caps, resizes, dial, err, "TRUE" if ordered else "FALSE"))
+         "  MaxErr = %d\n  MaxDbl = %d\n  MaxRestart = %d\n  Ordered = %s\nVIEW view\n" % (
+             size, caps, caps, resizes, dial, err, dbl, restart, "TRUE" if ordered else "FALSE"))
     s += "INVARIANTS %s%s\n" % (IMPL_INV, (" " + CONTRACT_INV) if contract else "")
     s += "PROPERTIES NoDrop%s\n" % ((" " + CONTRACT_PROPS) if contract else "")
     if sequential:
@@ -31,9 +32,24 @@ def mc_cfg(ordered, resizes, dial, err, contract=True, sequential=False, caps="{
     return s
 
 
-def sim_cfg(resizes=2, dial=5, err=1, ordered=False):
+def sim_cfg(resizes=2, dial=5, err=1, ordered=False, dbl=0, restart=0):
     return ("SPECIFICATION GSpec\nCONSTANTS\n  Size = 9\n  Caps = {1,2,3,4}\n  InitCaps = {1,2,3,4}\n  MaxResize = %d\n  MaxDial = %d\n"
-            "  MaxErr = %d\n  Ordered = %s\nACTION_CONSTRAINT UrgentAccept\n" % (resizes, dial, err, "TRUE" if ordered else "FALSE"))
+            "  MaxErr = %d\n  MaxDbl = %d\n  MaxRestart = %d\n  Ordered = %s\nACTION_CONSTRAINT UrgentAccept\n" % (
+                resizes, dial, err, dbl, restart, "TRUE" if ordered else "FALSE"))
+
+
+def dbl_cfg(ordered):
+    """generation profile OverlappingCloses (specs/ConnCap.tla): a small server at its cap; capacity comes back only through
+    connections closed by two overlapping Close calls"""
+    return (sim_cfg(1, 5, 0, ordered, dbl=2).replace("InitCaps = {1,2,3,4}", "InitCaps = {1,2}").replace("Caps = {1,2,3,4}", "Caps = {1,2,3}")
+            .replace("ACTION_CONSTRAINT UrgentAccept", "ACTION_CONSTRAINT UrgentAccept OverlappingCloses"))
+
+
+def reloads_cfg(resizes=2, restarts=2):
+    """generation profile OnlyReloads (specs/ConnCap.tla): sequences of reloads of the server - run-time cap changes and
+    restarting reloads (a new listener) - every order, every value"""
+    return ("SPECIFICATION GSpec\nCONSTANTS\n  Size = 9\n  Caps = {1,2,3}\n  InitCaps = {1,2,3}\n  MaxResize = %d\n  MaxDial = 0\n"
+            "  MaxErr = 0\n  MaxDbl = 0\n  MaxRestart = %d\n  Ordered = FALSE\nACTION_CONSTRAINT OnlyReloads\n" % (resizes, restarts))
 
 
 def burst_cfg(resizes, dial, ordered):
@@ -81,7 +97,8 @@ def stratified(items, key, limit, first=()):
 # call kinds that must occur behind a still pending call in the generated schedules / cases (vacuity)
 NEEDED_KINDS = {"g", "e", "s", "b"}
 
-ALL_ACTIONS = {"init", "dial", "acq", "accept", "err", "close", "setmax", "tuner", "tdone", "lclose", "acancel", "aabort", "eof"}
+ALL_ACTIONS = {"init", "dial", "acq", "accept", "err", "close", "setmax", "tuner", "tdone", "lclose", "acancel", "aabort", "eof",
+               "close2", "crel", "cnop"}
 
 TRACE_CFG = ("SPECIFICATION TSpec\nCONSTRAINT HWM\nPOSTCONDITION Accepted\n"
              "INVARIANTS NoAcceptAboveCapObserved CapHoldsWhileUnchanged NeverAboveEveryCap NoDrop ReleaseReusable\n")
@@ -106,7 +123,13 @@ def run(ctx):
                        "resize in flight while connections are open or waiting, or a client held back at the cap. Schedules and "
                        "overlap cases include bursts of cap changes on a full server with a client held back (profile BurstAtCap), one of "
                        "every sequence of call kinds - grow, shrink, shrink below the usage, same value as configured - before any "
-                       "sequence gets a second one; the stress drivers issue same-value calls and keep connections open across bursts")
+                       "sequence gets a second one; the stress drivers issue same-value calls and keep connections open across bursts. "
+                       "Connections are also closed by two Close calls that really overlap inside a slow close of the underlying connection "
+                       "(schedules: model actions close2/crel/cnop, the order of coming out forced; stress: rendezvous inside the inner "
+                       "Close). Server level: TLC-generated reload sequences mixing run-time cap changes and restarting reloads (port / "
+                       "keepAliveTimeout changed: a new listener), one of every class of the last reload (direction x where its value was "
+                       "seen before: last run-time value before a restart, this listener, an earlier listener, a creation cap, never), "
+                       "the cap the server ends with probed with cap+1 clients (thorough: after every reload)")
     ctx.assumptions += [
         "a cap change counts as applied when the done channel of SetMaxCount is closed; between request and completion every cap "
         "from the newest fully applied one on may justify an accept (ConnCapContract!CapsInEffect)",
@@ -114,6 +137,8 @@ def run(ctx):
         "before Close/Release is called",
         "Size of the weighted semaphore (maxCapacity = 20 000 000) is modelled by a constant larger than every reachable effective cap",
         "HTTP/3 is outside the claim (quic-go stub build)",
+        "a restarting reload is carried out with nobody connected (the harness hangs up first); from the restart on the cap in effect "
+        "is the maxConnections of the new spec, whatever was requested at run time before (ConnCapContract!CRestart)",
         "a SetMaxCount call whose done channel closes without a background adjustment having passed the sem.resize gate is taken as "
         "completed synchronously; its tuner steps in a schedule are empty (the contract does not say how a change is carried out)",
     ]
@@ -178,6 +203,11 @@ def _mc(ctx, state):
         ctx.notes.append("TLC lead with caps up to maxCapacity: %s violated by %s" % (r.violated, " ".join(_short(s) for s in lead)))
     elif not r.ok:
         ctx.inconclusive("TLC failed on ConnCap_Gen (maxCapacity lead run):\n" + r.out[-3000:])
+    # (e) overlapping Close calls on one connection and restarting reloads (a new listener with the cap of the new spec):
+    #     the slot of a connection is given back exactly once, the cap history starts afresh with a restart
+    r = ctx.tlc_mc("ConnCap_Gen", mc_cfg(False, 2, dial, 0, sequential=True, dbl=1 if q else 2, restart=1),
+                   label="impl model with overlapping Close calls and restarts: contract + impl invariants", timeout=1500)
+    ctx.log("impl model (overlapping Close calls, restarts): %d distinct states, all clauses hold" % r.distinct)
     # (d) the model of the repair (tuners in request order) satisfies everything
     if q:
         cfg_d = mc_cfg(True, rz, dial, 1)
@@ -310,6 +340,10 @@ def _interesting(seg):
                 return True
         elif k == "rzdone":
             inflight.discard(e["id"])
+        elif k == "restart":
+            inflight = set()
+            if any(x["ev"] == "rz" for x in seg):
+                return True           # run-time cap changes and a restart in one history
     return False
 
 
@@ -324,6 +358,8 @@ def _signature(level, inv, seg):
             caps.append(e["n"])
         elif e["ev"] == "rzdone":
             done.add(e["id"])
+        elif e["ev"] == "restart":      # a new listener: the cap history (and the numbering) starts afresh
+            caps, done = [e["cap"]], set()
     nreq = len(caps) - 1
     prefix = 0
     while prefix < nreq and (prefix + 1) in done:
@@ -492,8 +528,11 @@ def schedules(ctx, state, ordered=False):
     (behaviours with a resize are preferred), then bursts of cap changes on a full server (profile BurstAtCap), one of every
     sequence of call kinds before any gets a second one."""
     nb = 250 if ctx.quick else 2500
-    behs = ctx.tlc_simulate("ConnCap_Gen", sim_cfg(2, 5, 1, ordered), num=nb, depth=28)
+    behs = ctx.tlc_simulate("ConnCap_Gen", sim_cfg(2, 5, 1, ordered, dbl=1), num=nb, depth=28)
     behs += ctx.tlc_simulate("ConnCap_Gen", sim_cfg(3, 4, 0, ordered), num=nb, depth=28, seed=ctx.seed + 7919)
+    # connections closed by two overlapping Close calls (both inside the close of the underlying connection, coming out in
+    # either order relative to everything else): schedules in which the server fills up again afterwards
+    dbls = ctx.tlc_simulate("ConnCap_Gen", dbl_cfg(ordered), num=nb, depth=26, seed=ctx.seed + 32452843)
     bursts = ctx.tlc_simulate("ConnCap_Gen", burst_cfg(3, 5, ordered), num=nb + nb // 2, depth=32, seed=ctx.seed + 104729)
     if not ctx.quick:   # (quick tier: two overlapping calls come from the unconstrained behaviours above only)
         bursts += ctx.tlc_simulate("ConnCap_Gen", burst_cfg(2, 5, ordered), num=nb // 2, depth=28, seed=ctx.seed + 1299709)
@@ -536,7 +575,20 @@ def schedules(ctx, state, ordered=False):
     def bkey(b):
         caps = [s["n"] for s in b if s["a"] == "setmax"]
         return (rz_kinds(b), max(caps) <= b[0]["cap"])
-    return general + stratified(uniq(bursts), bkey, 80 if ctx.quick else 900)
+
+    def full_after_dbl(b):
+        """after two overlapping Close calls have both returned the model has the acceptor held back at the cap"""
+        acts = [s["a"] for s in b]
+        if "cnop" not in acts:
+            return False
+        return any(s["a"] == "acq" and s.get("blocks") for s in b[acts.index("cnop"):])
+    dsel = [b for b in uniq(dbls) if full_after_dbl(b)]
+    ctx.cov["overlapping_close_schedules"] = len(dsel)
+    if len(dsel) < 10:
+        ctx.inconclusive("TLC behaviours contain only %d schedules in which the server fills up after two overlapping Close calls" % len(dsel))
+    # (order of the two Close calls coming out relative to a cap change / an accept in between: both occur)
+    dsel = stratified(dsel, lambda b: tuple(s["a"] for s in b if s["a"] in ("close2", "crel", "cnop", "setmax")), 30 if ctx.quick else 200)
+    return general + stratified(uniq(bursts), bkey, 80 if ctx.quick else 900) + dsel
 
 
 def _ll_replay(ctx, state):
@@ -571,16 +623,86 @@ def _ll_replay_batch(ctx, state, ordered):
     return summ[0]
 
 
+def seq_class(sq):
+    """Class of a reload sequence by its last reload: kind (rt run-time change / rs restarting reload), whether the server had
+    been restarted before, direction relative to the cap the listener has then (G grow, S shrink, E equal), and where the value
+    had been seen before: L it is the value of the most recent run-time change (made under an earlier listener: a restart
+    with another cap lies in between), C requested at run time under this listener, P requested at run time under an earlier
+    listener only, I only as the cap a listener was created with, N never.  For a restarting reload the last component says
+    whether a run-time change had been made under the listener it replaces."""
+    cur, gen, last_rt = sq["cap"], 0, None
+    prev_rt, cur_rt, inits = set(), set(), {sq["cap"]}
+    for o in sq["ops"][:-1]:
+        if o["k"] == "rs":
+            gen += 1
+            prev_rt |= cur_rt
+            cur_rt = set()
+            inits.add(o["n"])
+        else:
+            cur_rt.add(o["n"])
+            last_rt = o["n"]
+        cur = o["n"]
+    o = sq["ops"][-1]
+    n = o["n"]
+    d = "G" if n > cur else "S" if n < cur else "E"
+    seen = "L" if n == last_rt and n not in cur_rt else "C" if n in cur_rt else "P" if n in prev_rt else "I" if n in inits else "N"
+    return (o["k"], gen > 0, d, seen, o["k"] == "rs" and len(cur_rt) > 0)
+
+
+def reload_sequences(ctx):
+    """Reload sequences for the server level, projected from TLC behaviours of the implementation-shaped model under the
+    profile OnlyReloads: every class of the last reload (seq_class) is represented before any class gets a second sequence;
+    classes whose last reload is a real run-time change after a restart come first, then restarts after run-time changes."""
+    nb = 1000 if ctx.quick else 4000
+    behs = ctx.tlc_simulate("ConnCap_Gen", reloads_cfg(3, 2), num=nb, depth=6, seed=ctx.seed + 49979687)
+    seqs, seen = [], set()
+    for b in behs:
+        if not b or b[0].get("a") != "init":
+            continue
+        allops = [{"k": "rt" if s_["a"] == "setmax" else "rs", "n": s_["n"]} for s_ in b[1:] if s_["a"] in ("setmax", "restart")]
+        for ln in range(len(allops), 1, -1):         # (a prefix of a behaviour is a behaviour)
+            ops = allops[:ln]
+            if not any(o["k"] == "rs" for o in ops):
+                continue
+            sq = {"cap": b[0]["cap"], "ops": ops}
+            k = jdump(sq)
+            if k not in seen:
+                seen.add(k)
+                seqs.append(sq)
+
+    def prio(sq):
+        k, restarted, d, _seen, rt_before = seq_class(sq)
+        if k == "rt" and restarted and d != "E":
+            return 0
+        if k == "rs" and rt_before and d != "E":
+            return 1
+        return 2
+    seqs.sort(key=prio)           # (stable: TLC's order within a priority)
+    classes = {seq_class(sq) for sq in seqs}
+    need = {("rt", True, d, w) for d in "GS" for w in "LPCIN"}
+    missing = sorted(c for c in need if not any(x[:4] == c for x in classes))
+    if missing:
+        ctx.inconclusive("TLC behaviours contain no reload sequence of the class(es) %s" % missing)
+    ctx.cov["reload_sequence_classes"] = len(classes)
+    return stratified(seqs, seq_class, 14 if ctx.quick else 40)
+
+
 def _server(ctx, state):
     """Real HTTPServer runtime, maxConnections changed through reload, raw clients. The runtime does not signal when a change
     has been applied: the harness logs `rzdone` after a settle time, marked "assumed". A rejection is believed if it also
     holds with those events removed (then it does not depend on timing at all); otherwise only if it reproduces with a
     five times longer settle time."""
     rounds = 1 if ctx.quick else 4
+    seqs = reload_sequences(ctx)
+    inp = ctx.write_ndjson("c17_reload_sequences.ndjson", seqs)
+    ctx.log("server level: %d TLC-generated reload sequences (run-time cap changes and restarting reloads), %d classes" % (
+        len(seqs), len({seq_class(q) for q in seqs})))
+    ctx.sample({"kind": "tlc-reload-sequence", "cap": seqs[0]["cap"], "ops": ["%s(%d)" % (o["k"], o["n"]) for o in seqs[0]["ops"]]})
 
     def once(settle_ms, tag):
         tp = ctx.path("c17_server_trace_%s.ndjson" % tag)
-        rc, out = ctx.go_test(PKG_HS, "^TestVerifC17Server$", env={"VERIF_OUT": tp, "VERIF_N": rounds, "VERIF_SETTLE_MS": settle_ms},
+        rc, out = ctx.go_test(PKG_HS, "^TestVerifC17Server$", env={"VERIF_OUT": tp, "VERIF_IN": inp, "VERIF_N": rounds, "VERIF_SETTLE_MS": settle_ms,
+                                                                 "VERIF_PROBE_ALL": 0 if ctx.quick else 1},
                               tags=state["tags"], timeout=900)
         if rc != 0:
             ctx.inconclusive("C17 server harness failed:\n" + out[-3000:])
@@ -595,16 +717,26 @@ def _server(ctx, state):
                          "scenarios were not used" % nfail)
         if nfail > 10:
             ctx.inconclusive("C17 server level: %d clients could not connect to the server under test (environment)" % nfail)
+    nrf = sum(1 for e in ev_all if e.get("ev") == "note" and e.get("k") == "restart-failed")
+    nrs = sum(1 for e in ev if e.get("ev") == "restart")
+    if nrf:
+        ctx.notes.append("server level: %d restarting reload(s) did not bring the server up again (environment); their sequences were abandoned" % nrf)
+    if nrs < max(1, len(seqs) // 2):
+        ctx.inconclusive("C17 server level: only %d restarts were carried out in %d reload sequences (%d failed)" % (nrs, len(seqs), nrf))
     hard = ctx.write_ndjson("c17_server_noassume.ndjson", [e for e in ev if not e.get("assumed")])
     # 1. without any timing assumption (every cap requested since the start of a scenario stays in effect)
-    _validate(ctx, state, "server", hard, "HTTPServer runtime with maxConnections changed through reload")
+    _n, _e, sigs1 = _validate(ctx, state, "server", hard, "HTTPServer runtime with maxConnections changed through reload")
     # 2. with the assumed completions: stronger, but believed only if it survives a 5x settle time
-    cfg_probe = ctx.tlc_trace("ConnCap_Trace", TRACE_CFG_ALL, tp)
+    full = ctx.write_ndjson("c17_server_assumed.ndjson", ev)       # (harness notes filtered out)
+    cfg_probe = ctx.tlc_trace("ConnCap_Trace", TRACE_CFG_ALL, full)
     bad = set(re.findall(r'<<"VERIF_BAD", "(\w+)", (\d+)>>', cfg_probe.out))
     hard_probe = ctx.tlc_trace("ConnCap_Trace", TRACE_CFG_ALL, hard)
     nhard = len(re.findall(r'VERIF_BAD', hard_probe.out))
     if cfg_probe.hwm < cfg_probe.total:
-        ctx.inconclusive("C17 server log with assumed completions is not consumed by the trace spec:\n" + cfg_probe.out[-2000:])
+        if any(sg.get("clause") == "rejected" for sg in sigs1):
+            return      # an event no contract step matches, already reported from the log without assumptions
+        ctx.inconclusive("C17 server log with assumed completions is not consumed by the trace spec: event %d of %d has no matching step; "
+                         "the events up to it: %s" % (cfg_probe.hwm + 1, cfg_probe.total, jdump([_strip(e) for e in ev[max(0, cfg_probe.hwm - 12):cfg_probe.hwm + 1]])))
     if len(bad) > nhard:
         ctx.log("server level: %d offending events depend on the settle-time assumption; repeating with 5x settle time" % (len(bad) - nhard))
         tp2 = once(1500, "b")
